@@ -658,7 +658,7 @@ Proof.
   destruct m as [sl rc nrc]. unfold write_main. cbn [mp_slice mp_rec mp_nonrec]. intros H Hids Hsl Hcnt.
   destruct ((sl =? 0) || negb (sl mod 4 =? 0))%N eqn:E1; [discriminate H|].
   destruct (Nat.eqb (length rc) 0) eqn:E2; [discriminate H|].
-  destruct (negb (ids_sorted rc) || negb (ids_sorted nrc)) eqn:E3; [discriminate H|].
+  destruct (negb (ids_ok rc) || negb (ids_ok nrc)) eqn:E3; [discriminate H|].
   match type of H with Ok ?b = Ok _ => assert (Emb : mb = b) by congruence end. clear H. subst mb.
   set (rest := concat rc ++ concat nrc).
   assert (Hrest : rest = concat (rc ++ nrc)) by (unfold rest; rewrite concat_app; reflexivity).
@@ -1016,7 +1016,7 @@ Proof.
   unfold write_main. intros H Hids.
   destruct ((mp_slice m =? 0) || negb (mp_slice m mod 4 =? 0))%N; [discriminate H|].
   destruct (Nat.eqb (length (mp_rec m)) 0); [discriminate H|].
-  destruct (negb (ids_sorted (mp_rec m)) || negb (ids_sorted (mp_nonrec m))); [discriminate H|].
+  destruct (negb (ids_ok (mp_rec m)) || negb (ids_ok (mp_nonrec m))); [discriminate H|].
   match type of H with Ok ?b = Ok _ => assert (Emb : mb = b) by congruence end. clear H. subst mb.
   transitivity (8 + (4 + length (concat (mp_rec m ++ mp_nonrec m)))).
   - rewrite concat_app, !app_length, !le_encode_length. reflexivity.
